@@ -618,7 +618,10 @@ def sameMeaning (W : List (Nat × List (Nat × Nat))) : Bool :=
 
 /-- **No unlisted write.**  No `Grid` getter (nor anything it hands the grid to) writes a `_ds` key or
     private attribute outside the modelled variables, a module-level container, or a stored
-    variable's `.data`; every modelled getter exists. -/
+    variable's `.data`; no function of the analysed modules applies an in-place operation
+    (`x op= …`, `x[…] = …`, `out=x`, `x.sort()`…) to a name that may alias a stored array (bound to
+    `….values` / `.data`, passed on through `np.asarray`-like calls and through calls); every modelled
+    getter exists. -/
 theorem gen_no_unlisted_writes :
     GridWrites.unknownWrites = [] ∧ GridWrites.moduleWrites = [] ∧ GridWrites.inplaceWrites = []
     ∧ GridWrites.missingGetters = [] := by
